@@ -373,7 +373,7 @@ func init() {
 			for col, news := range cs.Front {
 				before := collectionItems(res.Before, col)
 				after := collectionItems(res.After, col)
-				if len(after) != len(before)+len(news) || !sameSet(after[:min(len(news), len(after))], news) || !reflect.DeepEqual(after[min(len(news), len(after)):], before) {
+				if len(after) != len(before)+len(news) || !sameSet(after[:min(len(news), len(after))], news) || !eqStrings(after[min(len(news), len(after)):], before) {
 					viol("collection-front", "pub.FederatingWrappedCallbacks."+strings.ToLower(cs.Typ), cs.Typ, fmt.Sprintf("%s = %v, want %v in front of %v", col, after, news, before))
 				}
 			}
